@@ -581,6 +581,25 @@ func c10(r *hx.Run) {
 			t2["revealValue"] = fx.Reveal(other, fx.SHA256)
 			mutated = append(mutated, jcs.MustCanon(t2))
 			labels = append(labels, "req:revealValue:other-key")
+			// the true values repeated as extra members of the signed data while the request's own members carry foreign ones: the
+			// request's members are what counts
+			for _, fld := range []string{"revealValue", "didSuffix"} {
+				orig, ok := tree[fld].(string)
+				if !ok {
+					continue
+				}
+				withExtra := doc.Clone(ptree).(map[string]interface{})
+				withExtra[fld] = orig
+				t4 := fx.MustJSON(string(rebuild(withExtra, nil))).(map[string]interface{})
+				mutated = append(mutated, jcs.MustCanon(t4))
+				labels = append(labels, "signed:+"+fld+":true-value")
+				if fld == "revealValue" {
+					t4b := doc.Clone(t4).(map[string]interface{})
+					t4b[fld] = fx.Reveal(other, fx.SHA256)
+					mutated = append(mutated, jcs.MustCanon(t4b))
+					labels = append(labels, "signed:+"+fld+":true-value&req:"+fld+":other-key")
+				}
+			}
 			t3 := doc.Clone(tree).(map[string]interface{})
 			t3["revealValue"] = fx.B64(fx.MultihashBytes(0x12, fx.RawHash(fx.SHA256, []byte("x"))))
 			mutated = append(mutated, jcs.MustCanon(t3))
